@@ -63,3 +63,50 @@ Qed.
 (* ---- fasta: the line length constant ------------------------------------------- *)
 Lemma text_line_len_is_source : Z.of_nat text_line_len = k_fasta_textLineLen.
 Proof. reflexivity. Qed.
+
+(* ---- the format strings of the writers ------------------------------------------
+   gen/SrcGen.v also holds, for every fmt.Fprintf call with a literal format in the
+   Write methods of fasta, fastq, sam and bed, the function from the call's arguments to
+   the bytes it writes (translated from the format string and the argument types).
+   The chunks of the hand-written writers are exactly these functions applied to the
+   record's fields. *)
+From Bio.Model Require Fastq Sam Bed.
+
+Lemma fasta_write_is_source r :
+  Fasta.write_calls r
+  = src_fasta_Write_0 (Fasta.name r) :: map src_fasta_Write_1 (Fasta.chunks (Fasta.seq r)).
+Proof. reflexivity. Qed.
+
+Lemma fastq_write_is_source r :
+  Fastq.write_calls r = [src_fastq_Write_0 (Fastq.name r) (Fastq.seq r) (Fastq.quals r)].
+Proof. reflexivity. Qed.
+
+Lemma sam_write_is_source o r :
+  Sam.write_calls o r
+  = src_sam_Write_0 (Sam.s_qname r) (Sam.s_flag r) (Sam.s_rname r) (Sam.s_pos r) (Sam.s_mapq r)
+      (Sam.s_cigar r) (Sam.s_rnext r) (Sam.s_pnext r) (Sam.s_tlen r) (Sam.s_seq r) (Sam.s_qual r)
+    :: map src_sam_Write_1 (Sam.tags_text o (Sam.s_tags r)) ++ [src_sam_Write_2].
+Proof. reflexivity. Qed.
+
+(* BED: the ladder of calls; the two block lists are written by calls with a computed
+   format ("%v" / ",%v"), which the translator skips: they stay hand-modelled. *)
+Lemma bed_write_is_source b cs :
+  Bed.write_calls b = Ok cs ->
+  let n := Bed.b_n b in
+  let '(r, g, bl) := Bed.b_rgb b in
+  cs = [src_bed_Write_0 (Bed.b_chrom b) (Bed.b_start b) (Bed.b_end b)]
+    ++ Bed.when (n >? 3)%Z [src_bed_Write_1 (Bed.b_name b)]
+    ++ Bed.when (n >? 4)%Z [src_bed_Write_2 (Bed.b_score b)]
+    ++ Bed.when (n >? 5)%Z [src_bed_Write_3 (Bed.b_strand b)]
+    ++ Bed.when (n >? 6)%Z [src_bed_Write_4 (Bed.b_thick_start b)]
+    ++ Bed.when (n >? 7)%Z [src_bed_Write_5 (Bed.b_thick_end b)]
+    ++ Bed.when (n >? 8)%Z [src_bed_Write_6 (Z.of_N r) (Z.of_N g) (Z.of_N bl)]
+    ++ Bed.when (n >? 9)%Z [src_bed_Write_7 (Bed.b_block_count b)]
+    ++ Bed.when (n >? 10)%Z (src_bed_Write_8 :: Bed.list_calls (Bed.b_block_sizes b))
+    ++ Bed.when (n >? 11)%Z (src_bed_Write_9 :: Bed.list_calls (Bed.b_block_starts b))
+    ++ [src_bed_Write_10].
+Proof.
+  unfold Bed.write_calls. destruct ((Bed.b_n b <? 3)%Z || (Bed.b_n b >? 12)%Z); [discriminate|].
+  intros H. injection H as <-. destruct (Bed.b_rgb b) as [[r g] bl] eqn:E.
+  cbn zeta. unfold Bed.rgb_text, Bed.fmt_byte. reflexivity.
+Qed.
